@@ -5,7 +5,7 @@
 From Coq Require Import List ZArith Bool QArith Qcanon.
 From GL Require Import Lib.Arr Lib.Keyed Lib.Blocks Model.Dom Model.Scalar Model.Reduce
   Spec.Defs Spec.Exec Proofs.ReduceSeries Proofs.ReduceKernel Proofs.ReduceMerge
-  Proofs.ReduceBlocks Proofs.ReduceWrap Proofs.ReduceSpec Proofs.GenTie
+  Proofs.ReduceBlocks Proofs.ReduceWrap Proofs.ReduceSpec Proofs.GenTie Proofs.TieReducerTables Proofs.TieTarget
   Gen.ScalarFuncsGen Gen.TablesGen.
 Import ListNotations.
 Open Scope Z_scope.
